@@ -227,6 +227,36 @@ func ruleC01Roots(c *Ctx) {
 		} else {
 			c.violate("C01.roots", key+":walk-guard", call.Pos(), key, "AddRoot is reached without root.Walk() being true for the root whose id is passed: unselected references would be traversed")
 		}
+		// … and under nothing else: every walked root is fed exactly once
+		l := innermostLoop(loopsOf(f), call.Block())
+		extra := ""
+		for _, fct := range factsAt(call.Block()) {
+			if l == nil || !l.Blocks[fct.If.Block()] || fct.If.Block() == l.Head {
+				continue
+			}
+			cond, _ := normCond(fct.Cond, fct.Truth)
+			if w, ok := cond.(*ssa.Call); ok && w.Call.IsInvoke() && w.Call.Method.Name() == "Walk" {
+				continue
+			}
+			extra = strings.TrimSpace(cond.String())
+		}
+		if l == nil {
+			c.violate("C01.roots", key+":loop", call.Pos(), key, "AddRoot is not called from a loop over the roots")
+		} else if extra != "" {
+			c.violate("C01.roots", key+":every-walked-root", call.Pos(), key, "whether a walked root is fed to rev-list depends on a further condition ("+extra+"): some selected roots would not be traversed")
+		} else {
+			ec := c.newEventCounter(func(in ssa.Instruction) int {
+				if in == ssa.Instruction(call) {
+					return 1
+				}
+				return 0
+			}, false)
+			if r := ec.perIteration(l); r.Max == 1 {
+				c.hold("C01.roots", key+":every-walked-root", call.Pos(), "within one iteration AddRoot depends on Walk() alone and is called at most once")
+			} else {
+				c.violate("C01.roots", key+":every-walked-root", call.Pos(), key, fmt.Sprintf("AddRoot is called %s times per root", rangeStr(r)))
+			}
+		}
 		// the root iterates over the scanner's roots parameter
 		c.checkRootsSource(root, f, call)
 	}
